@@ -100,3 +100,19 @@ Theorem C02_deferred_needs_terminal_refuted : exists sh ops (init : list K8) kvs
   keyrec_mass K8Ops kvs (exec K8Ops sh ops init) <> keyrec_mass K8Ops kvs (exec K8Ops sh (defer ops) init).
 Proof. exact deferred_needs_terminal_refuted. Qed.
 Print Assumptions C02_deferred_needs_terminal_refuted.
+
+(* ---- re-keying (Sim/Rekey.v): key maps, key-path prefixes and sub-circuit scoping rename keys without merging them ---- *)
+From VF Require Import Sim.Rekey Sim.RekeyProofs.
+Theorem C02_rekey_preserves_ensemble : forall K (O : Ops K) (f : nat -> nat), (forall a b, f a = f b -> a = b) ->
+  forall sh ops init, exec O sh (map (ren_mop f) ops) init = map (ren_branch f) (exec O sh ops init).
+Proof. exact @exec_rename. Qed.
+Print Assumptions C02_rekey_preserves_ensemble.
+Theorem C02_rekey_preserves_distribution : forall K (O : Ops K) (f : nat -> nat), (forall a b, f a = f b -> a = b) ->
+  forall sh ops init r, rec_mass O (exec O sh (map (ren_mop f) ops) init) r = rec_mass O (exec O sh ops init) r.
+Proof. exact @exec_rename_mass. Qed.
+Print Assumptions C02_rekey_preserves_distribution.
+Theorem C02_rekey_merging_keys_refuted : exists (g : nat -> nat),
+  exec K8Ops [2; 2; 2] (map (ren_mop g) ex_merge_ops) ex_merge_init
+  <> map (ren_branch g) (exec K8Ops [2; 2; 2] ex_merge_ops ex_merge_init).
+Proof. exact rename_merging_keys_refuted. Qed.
+Print Assumptions C02_rekey_merging_keys_refuted.
